@@ -13,6 +13,9 @@ import "io"
 func vh_C14_L1_close_after_data_and_reuse() {
 	il := vPick(2) == 1
 	a, b := vPair(vAssocOpts{interleaving: il, pickTSN: true})
+	// the reset request gets the last sequence number before the 32-bit wrap, the one before
+	// it, or whatever the initial TSN gives
+	a.myNextRSN = []uint32{0xffffffff, 0xfffffffe, a.myNextRSN}[vPick(3)]
 	s, err := a.OpenStream(1, PayloadTypeWebRTCBinary)
 	vassert(err == nil, "open stream")
 	unordered := vPick(2) == 1
